@@ -203,7 +203,14 @@ class Translator:
                 if isinstance(x, ast.FormattedValue):
                     self.expr(f, x.value)
             return self.fresh(f)
-        if isinstance(e, ast.ListComp):
+        if isinstance(e, ast.DictComp):
+            for g in e.generators:
+                it = self.expr(f, g.iter)
+                self.assign_target(f, g.target, it)
+                for c in g.ifs:
+                    self.expr(f, c)
+            return self.alias_of(f, [self.expr(f, e.key), self.expr(f, e.value)])
+        if isinstance(e, (ast.ListComp, ast.GeneratorExp, ast.SetComp)):
             for g in e.generators:
                 it = self.expr(f, g.iter)
                 self.assign_target(f, g.target, it)
